@@ -102,6 +102,27 @@ func c04AliasFork(segs [][]byte, B int, dumpOn bool) (ans string, nlines int) {
 	return "lines=" + verifh.HexList(lines) + " end=" + ending + " rest=" + verifh.Hex(string(rest)), len(lines)
 }
 
+// c04AliasMimeModel renders the fork's ReadMIMEHeader in the format of the `c04amime` driver lane.
+func c04AliasMimeModel(segs [][]byte, B int) string {
+	first := byte(0)
+	for _, sg := range segs {
+		if len(sg) > 0 {
+			first = sg[0]
+			break
+		}
+	}
+	if first == ' ' || first == '\t' || first == 0 && len(segs) == 0 {
+		return "n/a"
+	}
+	br := bufio.NewReaderSize(&c04SegReader{segs: c04CloneSegs(segs)}, B)
+	m, err := newTextprotoReader(br, nil).ReadMIMEHeader()
+	if err != nil {
+		return "err=" + c04ErrClass(err)
+	}
+	rest, _ := io.ReadAll(br)
+	return c04RenderMap(m) + " err=- rest=" + verifh.Hex(string(rest))
+}
+
 func c04AliasMime(segs [][]byte, B int, ref bool) string {
 	br := bufio.NewReaderSize(&c04SegReader{segs: c04CloneSegs(segs)}, B)
 	var h map[string][]string
@@ -181,6 +202,17 @@ func TestVerif_C04_alias(t *testing.T) {
 		}
 		s.Case(fmt.Sprintf("c04alias %d %s", B, verifh.HexList(hs)), ans, ok, "", n > 0,
 			fmt.Sprintf("B=%d segments %q -> %s", B, hs, c04Short(ans)))
+		// the whole header-block loop (lines + map building) against the model's amimeLoop, which is
+		// proved equal to the whole-stream mimeLoopE (head_incremental_is_whole_stream)
+		mm := c04AliasMimeModel(segs, B)
+		if mm != "n/a" {
+			cnt.Count("amime")
+			if strings.HasPrefix(mm, "err=") {
+				cnt.Count("amime-" + mm)
+			}
+		}
+		s.Case(fmt.Sprintf("c04amime %d %s", B, verifh.HexList(hs)), mm, ok, "", mm != "n/a" && !strings.HasPrefix(mm, "err="),
+			fmt.Sprintf("B=%d segments %q -> ReadMIMEHeader %s", B, hs, c04Short(mm)))
 		if ansDump != ans {
 			// response-header dump on: the same lines must come back (judged by the same model line)
 			cnt.Count("dump-on-differs")
@@ -246,7 +278,7 @@ func TestVerif_C04_alias(t *testing.T) {
 		cnt.Count("random")
 	}
 	s.Finish()
-	for _, need := range []string{"end-blank", "end-invalid", "end-eof", "segment-ends-one-byte-into-line", "every-position", "random", "dump-on-same"} {
+	for _, need := range []string{"end-blank", "end-invalid", "end-eof", "segment-ends-one-byte-into-line", "every-position", "random", "dump-on-same", "amime", "amime-err=eof", "amime-err=header"} {
 		if cnt.m[need] == 0 {
 			t.Errorf("C04/alias generator never reached bucket %q", need)
 		}
